@@ -41,54 +41,61 @@ RANDOM_ATTRS = {"rng", "key", "random_state", "rng_key"}
 
 
 def upward_exposed(stmts):
-    """Names read before being (definitely) written in a statement list."""
-    defined, exposed = set(), set()
+    """Names read before being (definitely) written in a statement list.  A
+    definition made inside a branch / loop body / try block counts for the rest
+    of that block only."""
+    exposed = set()
 
-    def expr_uses(e):
+    def expr_uses(e, defined):
         for n in ast.walk(e):
             if isinstance(n, ast.Name) and isinstance(n.ctx, ast.Load) and n.id not in defined:
                 exposed.add(n.id)
 
-    def visit(stmts, definite=True):
+    def visit(stmts, defined):
         for s in stmts:
             if isinstance(s, (ast.FunctionDef, ast.ClassDef)):
                 continue
             if isinstance(s, ast.Assign):
-                expr_uses(s.value)
+                expr_uses(s.value, defined)
                 for t in s.targets:
                     for n in ast.walk(t):
-                        if isinstance(n, ast.Name) and isinstance(n.ctx, ast.Store) and definite:
+                        if isinstance(n, ast.Name) and isinstance(n.ctx, ast.Store):
                             defined.add(n.id)
                         elif isinstance(n, ast.Name) and isinstance(n.ctx, ast.Load):
-                            expr_uses(n)
+                            expr_uses(n, defined)
             elif isinstance(s, ast.AugAssign):
-                expr_uses(s.value)
+                expr_uses(s.value, defined)
                 if isinstance(s.target, ast.Name):
                     if s.target.id not in defined:
                         exposed.add(s.target.id)
                 else:
-                    expr_uses(s.target)
+                    expr_uses(s.target, defined)
             elif isinstance(s, ast.If):
-                expr_uses(s.test)
-                visit(s.body, False)
-                visit(s.orelse, False)
+                expr_uses(s.test, defined)
+                visit(s.body, set(defined))
+                visit(s.orelse, set(defined))
             elif isinstance(s, (ast.While, ast.For)):
-                expr_uses(s.test if isinstance(s, ast.While) else s.iter)
-                visit(s.body, False)
+                expr_uses(s.test if isinstance(s, ast.While) else s.iter, defined)
+                inner = set(defined)
+                if isinstance(s, ast.For):
+                    inner |= {n.id for n in ast.walk(s.target) if isinstance(n, ast.Name)}
+                visit(s.body, inner)
             elif isinstance(s, ast.With):
                 for i in s.items:
-                    expr_uses(i.context_expr)
-                visit(s.body, definite)
+                    expr_uses(i.context_expr, defined)
+                    if i.optional_vars is not None:
+                        defined |= {n.id for n in ast.walk(i.optional_vars) if isinstance(n, ast.Name)}
+                visit(s.body, defined)
             elif isinstance(s, ast.Try):
-                visit(s.body, False)
+                visit(s.body, set(defined))
                 for h in s.handlers:
-                    visit(h.body, False)
-                visit(s.finalbody, definite)
+                    visit(h.body, set(defined) | ({h.name} if h.name else set()))
+                visit(s.finalbody, defined)
             else:
                 for e in ast.iter_child_nodes(s):
                     if isinstance(e, ast.expr):
-                        expr_uses(e)
-    visit(stmts)
+                        expr_uses(e, defined)
+    visit(stmts, set())
     return exposed
 
 
